@@ -28,6 +28,23 @@ def gen_case(rng, thorough=False):
     c['_src'] = name
     return c
 
+def large_corpus(full):
+    """fixed cases whose table is megabytes of text before the failing evaluation: a writer that hands finished parts over once some
+    volume has accumulated is invisible on the small grids above (one per kind of writer; quick: the pair writers and one EAM writer)"""
+    out = []
+    want = [('lammps', None), ('dlpoly', None), ('c19', 'gulp'), ('setfl', None)] + ([('fs', None), ('tabeam', None), ('c19', 'adp'), ('c19', 'funcfl')] if full else [])
+    mods = dict((n, m) for n, m, _ in SOURCES)
+    for k, (name, writer) in enumerate(want):
+        for t in range(200):
+            g = random.Random(1700 + 37 * k + t); c = mods[name].gen_case(g)
+            if writer and c.get('writer') != writer: continue
+            if len(c.get('pots', [])) >= 2 or len(c.get('elements', [])) >= 2: break
+        if 'nr' in c: c['nr'] = 30000 if name == 'dlpoly' else 30001
+        if 'nrho' in c: c['nrho'] = 20001
+        c['_src'] = name; c['_large'] = True; c['_maxpos'] = 2
+        out.append(c)
+    return out
+
 def runner(case):
     return dict((n, m) for n, m, _ in SOURCES)[case['_src']].run_recorded
 
@@ -56,6 +73,7 @@ def analyse(case, max_positions=None):
     ks = list(range(n))
     if max_positions and n > max_positions:
         rng = random.Random(n); ks = sorted(set([0, 1, n - 2, n - 1] + rng.sample(ks, max_positions)))
+        if case.get('_large'): ks = sorted(set([n - 1, (2 * n) // 3] + rng.sample(range(n // 2, n), max_positions)))
     for k in ks:
         raised, rec2, f2 = one_run(case, k)
         if raised != 'fault': fails.append('fault at evaluation %d of %d: writer %s' % (k, n, 'did not propagate it' if raised is None else 'raised ' + raised)); break
@@ -125,12 +143,12 @@ def oracle(case):
 
 def correspond(ctx):
     rng = ctx['rng']
-    cases = [gen_case(rng) for _ in range(120 if ctx['thorough'] else 36)]
+    cases = large_corpus(ctx['thorough']) + [gen_case(rng) for _ in range(120 if ctx['thorough'] else 36)]
     pcases = potable_corpus(ctx['thorough']) + [gen_potable(rng) for _ in range(44 if ctx['thorough'] else 6)]
     dis = []
     nfaults = 0
     for c in cases:
-        c['_maxpos'] = None if ctx['thorough'] else 40
+        if not c.get('_large'): c['_maxpos'] = None if ctx['thorough'] else 40
         f = analyse(c, c['_maxpos'])
         nfaults += 1
         if f: dis.append({'case': c, 'what': '; '.join(f)[:300]})
@@ -144,7 +162,7 @@ def correspond(ctx):
             'potable_failing_function': {w: sum(1 for c in pcases if c['where'] == w) for w in ('pair', 'embed', 'density', 'dipole', 'quadrupole')}}
     return {'evaluations': len(allc), 'cases': allc, 'nontrivial': core.distinct_count(allc),
             'rule': 'every writer (LAMMPS, DL_POLY, GULP, Excel, setfl, setfl_fs, ADP, funcfl, TABEAM, TABEAM_fs, Excel EAM/FS) on small generated models: recorded interleaving of evaluations and writes must be "all evaluations, one write"; '
-                    'a fault is injected at every evaluation position k (quick: first/last + 40 sampled when more) and the file object must have received nothing; '
+                    'a fault is injected at every evaluation position k (quick: first/last + 40 sampled when more) and the file object must have received nothing; fixed large-volume cases (30001 rows: megabytes of text before the failing evaluation, faults in the second half) per kind of writer; '
                     'potable subprocess on every target with a formula that leaves its domain part-way (pair/embedding/density/dipole/quadrupole): non-zero exit and empty-or-absent output file; all cases are non-trivial',
             'samples': [{k: v for k, v in c.items()} for c in cases[:1]] + pcases[:2], 'distribution': dist, 'disagreements': dis[:20], 'oracle_cases': []}
 
@@ -155,6 +173,7 @@ def potable_corpus(full):
 
 def search_cases(rng, n):
     for c in potable_corpus(True): yield c
+    for c in large_corpus(True): yield c
     for k in range(min(n, 120)):
         c = gen_case(rng); c['_maxpos'] = 12
         yield c
